@@ -174,6 +174,73 @@ def evolve(sig, app_label, muts, alias='default', one_at_a_time=False, trace=Non
     return p
 
 
+def insert_rows(models_by_app, rng, n_rows=None, alias='default'):
+    """0-6 rows per table: NULLs, empty strings, quotes, percent signs, negative and boundary
+    numbers, FK links to existing rows; M2M links"""
+    from django.db import models as dm
+    import datetime
+    import decimal
+    strs = ['', 'x', "it's", '50%', 'back\\slash', 'q"uote', 'ünï', 'NULL']
+    ints = [0, 1, -1, 7, 2147483647, -2147483648, 42]
+    created = {}
+    for app_id, ms in models_by_app.items():
+        for m in ms:
+            n = rng.randint(0, 6) if n_rows is None else n_rows
+            objs = []
+            for i in range(n):
+                kw = {}
+                ok = True
+                for f in m._meta.local_fields:
+                    if f.primary_key:
+                        continue
+                    if f.null and rng.random() < 0.35:
+                        kw[f.attname] = None
+                        continue
+                    if isinstance(f, (dm.ForeignKey, dm.OneToOneField)):
+                        target = created.get(f.remote_field.model if not isinstance(f.remote_field.model, str) else None)
+                        cands = list(target) if target else ([o.pk for o in objs] if f.remote_field.model is m else [])
+                        if isinstance(f, dm.OneToOneField) or f.unique:
+                            used = set(getattr(o, f.attname) for o in objs)
+                            cands = [c for c in cands if c not in used]
+                        if cands:
+                            kw[f.attname] = rng.choice(cands)
+                        elif f.null:
+                            kw[f.attname] = None
+                        else:
+                            ok = False
+                    elif isinstance(f, dm.CharField):
+                        v = rng.choice(strs)[:f.max_length or 10]
+                        kw[f.attname] = (v + str(i))[:f.max_length or 10] if f.unique else v
+                    elif isinstance(f, dm.TextField):
+                        kw[f.attname] = rng.choice(strs)
+                    elif isinstance(f, dm.BooleanField):
+                        kw[f.attname] = rng.choice([True, False])
+                    elif isinstance(f, dm.DecimalField):
+                        kw[f.attname] = decimal.Decimal(rng.choice(['0', '1.5', '-2.25', '9.99']))
+                    elif isinstance(f, dm.DateTimeField):
+                        kw[f.attname] = datetime.datetime(2020, 1, 2, 3, 4, 5 + i, tzinfo=datetime.timezone.utc)
+                    elif isinstance(f, dm.PositiveIntegerField):
+                        kw[f.attname] = abs(rng.choice(ints)) + (i * 1000 if f.unique else 0)
+                    else:
+                        kw[f.attname] = rng.choice(ints) + (i * 1000 if f.unique else 0)
+                if not ok:
+                    continue
+                try:
+                    objs.append(m.objects.using(alias).create(**kw))
+                except Exception:
+                    pass        # unique collisions etc.: the row is simply not inserted
+            created[m] = [o.pk for o in objs]
+            for f in m._meta.local_many_to_many:
+                target = created.get(f.remote_field.model)
+                for o in objs:
+                    if target and rng.random() < 0.5:
+                        try:
+                            getattr(o, f.name).add(*rng.sample(target, min(len(target), rng.randint(1, 2))))
+                        except Exception:
+                            pass
+    return created
+
+
 # ---------------------------------------------------------------------------
 # semantic introspection
 # ---------------------------------------------------------------------------
